@@ -497,6 +497,31 @@ func sweepPools() func() {
 	}
 }
 
+// retainBytes: any byte slice a library function handed out (a sample: the first 400 per label, then one in 25); it is
+// looked at again when the run is over
+type retainedSlice struct {
+	label string
+	b     []byte
+	snap  []byte
+}
+
+var retainedSlices []retainedSlice
+var retainedSlicesPer map[string]int
+
+func retainBytes(label string, b []byte) {
+	if len(b) == 0 {
+		return
+	}
+	if retainedSlicesPer == nil {
+		retainedSlicesPer = map[string]int{}
+	}
+	retainedSlicesPer[label]++
+	if k := retainedSlicesPer[label]; k > 400 && k%25 != 0 {
+		return
+	}
+	retainedSlices = append(retainedSlices, retainedSlice{label, b, append([]byte(nil), b...)})
+}
+
 type retainedPDU struct {
 	name, op, rendered string
 	p                  codec
@@ -589,7 +614,17 @@ func verifyRetained(res *Result, prop string) {
 			report(it, "every buffer of the shared pool being taken and overwritten")
 		}
 	}
+	seenSlice := map[string]bool{}
+	for _, it := range retainedSlices {
+		if !bytes.Equal(it.b, it.snap) && !seenSlice[it.label] {
+			seenSlice[it.label] = true
+			res.Violate(prop+".result-changed-later:"+it.label, fmt.Sprintf("a byte slice returned by %s no longer holds what was returned (was %s, is %s): a later call wrote into its storage", it.label, hx(it.snap[:min(len(it.snap), 24)]), hx(it.b[:min(len(it.b), 24)])), []string{"(" + it.label + " followed by the later calls of this run)"})
+		}
+	}
 	giveBack()
+	if len(retainedSlices) > 0 {
+		res.Notes = append(res.Notes, fmt.Sprintf("%d byte slices handed out by library functions looked at again at the end of the run", len(retainedSlices)))
+	}
 	if len(retainedPDUs) > 0 {
 		res.Notes = append(res.Notes, fmt.Sprintf("%d PDUs handed out by the dispatchers looked at again at the end of the run", len(retainedPDUs)))
 	}
